@@ -156,9 +156,53 @@ def e3_task(payload):
     return res
 
 
+def req_task(payload):
+    """two requests that name no result file, made and served in every admissible order, within one clock instant or not."""
+    res = check.new_result()
+    for spec in payload['specs']:
+        tag = runner.fork_exec(MC.mc_client_sequence, spec, timeout=900)
+        res['execs'] += 1
+        res['steps'] += len(spec['order'])
+        if tag[0] != 'ok':
+            res['infra'].append(f'request sequence failed: {tag[1]} {tag[2] if len(tag) > 2 else ""} spec={spec}')
+            continue
+        r = tag[1]
+        res['accepted'] += 1
+        ctx = f'[order {spec["order"]}, clock {spec["clock"]}, assignment {spec["assignment"]}]'
+        bad_ops = [o for o in r['ops'] if o[1] != 'ok']
+        if bad_ops:
+            check.fail(res, 'request/operation_failed', f'{ctx} {bad_ops[:2]}')
+        if len(set(r['path'].values())) != len(r['path']):
+            check.fail(res, 'request/shared_result_file', f'{ctx} two requests that name no result file were given the same one: {r["path"]}')
+        for who, text in r['file'].items():
+            if text is None:
+                check.fail(res, 'request/no_result_file', f'{ctx} request {who}: no result file at {r["path"][who]} after the sequence')
+                continue
+            header, rows, stats = MC.parse_result_file(text)
+            if len(rows) != spec['K']:
+                check.fail(res, 'request/rows_count', f'{ctx} request {who}: {len(rows)} rows for {spec["K"]} successful iterations')
+            lo, hi = MC.REQ_SUPPORT[who]
+            for toks, ins, raw in rows:
+                x = float(ins.get('Gradient 1', 'nan'))
+                if not (lo <= x <= hi):
+                    check.fail(res, 'request/support', f'{ctx} request {who}: its result file records the sample {x!r}, outside uniform({lo}, {hi})')
+                    break
+        d = check.digest(['req', spec])
+        res['states'].append(d)
+        res['nontrivial'].append(d)
+    res['sample'] = {'monte_carlo_requests_without_result_file': payload['specs'][0] if payload['specs'] else None}
+    return res
+
+
+REQ_ORDERS = [o for o in __import__('itertools').permutations(['newA', 'newB', 'runA', 'runB'])
+              if o.index('newA') < o.index('runA') and o.index('newB') < o.index('runB')]
+
+
 def task(payload):
     if payload['kind'] == 'e3':
         return e3_task(payload)
+    if payload['kind'] == 'req':
+        return req_task(payload)
     return MC.ilv_task(payload)
 
 
@@ -187,6 +231,12 @@ def plan(tier, seed):
                  for a in poolx.set_partitions(K, W)]
         for i in range(0, len(specs), 4):
             P.append({'kind': 'e3', 'specs': specs[i:i + 4]})
+    # requests that leave the result file to the library: all admissible orders of {make A, make B, serve A, serve B} x clock {one instant, real}
+    K = 2
+    rspecs = [{'order': list(o), 'clock': c, 'K': K, 'assignment': a, 'seed': seed} for o in REQ_ORDERS for c in ('frozen', 'real')
+              for a in ([0, 0], [0, 1])]
+    for i in range(0, len(rspecs), 3):
+        P.append({'kind': 'req', 'specs': rspecs[i:i + 3]})
     # conformance of the controlled pool: free-running real pool
     for rep in range(2 if tier == 'quick' else 5):
         P.append({'kind': 'e3', 'specs': [{'tag': 'mix', 'base': 'elec', 'inputs': SETTINGS['mix'], 'outputs': OUTPUTS, 'K': 6,
